@@ -543,7 +543,7 @@ def bounded(payload):
     rng = random.Random(seed)
     quick = tier == "quick"
     max_n = budget.get("exhaustive_statements", 3 if quick else 4)
-    n_random = budget.get("random_phases", 1500 if quick else 40000)
+    n_random = budget.get("random_phases", 1500 if quick else 25000)
     rand_max_n = budget.get("random_statements", 8 if quick else 10)
     active = {e.get("fingerprint") for e in payload.get("known", []) if e.get("fingerprint") in FINGERPRINTS}
 
